@@ -64,6 +64,38 @@ NOTE_SHAPES = ("both", "no_hits", "no_holds", "none", "one_hit", "one_hold")
 LABEL_MODES = ("default", "default", "default", "gappy_rev", "offset", "rev", "perm", "sorted")
 CALLS = ("kw", "kw", "positional", "class", "default_layout")
 HISTORIES = ("fresh", "fresh", "fresh", "second_write", "after_other")
+#: call - legitimate change - call again: the chart object is first built as ANOTHER legal chart and written, then changed into the chart of the
+#: case through public operations only (list property setters, the stack, rate(), append + assignment of the new list, assignment of new lists
+#: and fields), then written again: the second result must denote the chart as it is NOW
+EDIT_HISTORIES = ("edit_scaled_props", "edit_scaled_stack", "edit_scaled_rate", "edit_columns_props", "edit_columns_stack", "edit_appended", "edit_replaced")
+#: what the target path of write_file holds before the call
+FILE_BEFORE = ("empty", "absent", "longer_text", "shorter_text", "other_chart", "same_path_twice")
+#: tempo values at the ends of what `#BPM` / `#BPMxx` can carry with <= 3 decimals
+BPM_WIDE = ["1", "0.5", "0.125", "7.125", "1000", "9999", "65535", "12345.678", "999.999", "0.001"]
+#: the five layouts as the library's public documentation gives them (Writerside/topics/reamber/bms/Channel.md, row "Column | 0 | 1 ...": the
+#: channel of column 0, 1, ...), fixed data: what the written bytes are INTERPRETED with is this table, not the table the writer itself uses
+#: (columns the page is silent on - the fifth column of PMS_5B - are interpreted with the shipped entry)
+DOC_LAYOUTS = {
+    "BMS": "11 12 13 14 15 16 17 21 22 23 24 25 26 27",
+    "BME": "16 11 12 13 14 15 18 19 21 22 23 24 25 28 29 26",
+    "PMS": "11 12 13 14 15 22 23 24 25",
+    "PMS_BME": "11 12 13 14 15 18 19 16 17 21 22 23 24 25 28 29 26 27",
+    "PMS_5B": "13 14 15 22",
+}
+
+
+def interp_layout(name):
+    """the table the written bytes are interpreted with: documented channel -> column, plus the shipped entries of columns / channels the
+    documentation does not mention"""
+    doc = {ch.encode(): col for col, ch in enumerate(DOC_LAYOUTS[name].split())}
+    lay = {k: v for k, v in layout_of(name).items() if not (isinstance(v, int) and not isinstance(v, bool) and (k in doc or v in doc.values()))}
+    lay.update(doc)
+    return lay
+
+
+def columns_of(name):
+    """every column the layout offers: the documented ones and the shipped ones"""
+    return sorted(set(note_lanes(layout_of(name)).values()) | set(range(len(DOC_LAYOUTS[name].split()))))
 
 
 def _labels_for(rng, n, mode):
@@ -83,22 +115,31 @@ def _labels_for(rng, n, mode):
 
 
 def gen_case(rng, layout_name, *, n_tempo=None, long_bpm=False, density=None, notes=None, far=None, int_ms=None, placeholder=None, lnobj=None,
-             history=None, call=None, via_file=None, labels=None, empty_via=None):
+             history=None, call=None, via_file=None, labels=None, empty_via=None, wide_bpm=None, last_measure=False, file_before=None):
     """one chart + the way it is written.  Every dimension that is not forced by the caller is a mixture on `rng`."""
-    lanes = sorted(note_lanes(layout_of(layout_name)).values())
+    lanes = columns_of(layout_name)
     notes = notes if notes is not None else (rng.choice(NOTE_SHAPES[1:]) if rng.random() < 0.22 else "both")
     int_ms = (rng.random() < 0.1 and not long_bpm) if int_ms is None else int_ms
     far = (rng.random() < 0.08) if far is None else far
     n_tempo = n_tempo if n_tempo is not None else rng.choice([1, 1, 2, 2, 3, 4, 6])
+    wide_bpm = (rng.random() < 0.08 and not int_ms and not long_bpm) if wide_bpm is None else wide_bpm
     measures = [0]
     for _ in range(n_tempo - 1):
         measures.append(measures[-1] + (rng.choice([40, 90, 150]) if far else rng.choice([1, 1, 2, 3])))
+    if last_measure and n_tempo > 1:
+        measures[-1] = 999  # the last measure line the format has
     pool = INT_BPM if int_ms else BPM_POOL + (BPM_LONG if long_bpm else [])
+    if wide_bpm:
+        pool = BPM_WIDE + pool[:2]
     tempo = [[m, rng.choice(pool)] for m in measures]
     if long_bpm and not any(b in BPM_LONG for _, b in tempo):
         tempo[rng.randrange(len(tempo))][1] = rng.choice(BPM_LONG)
+    if wide_bpm and not any(b in BPM_WIDE for _, b in tempo):
+        tempo[rng.randrange(len(tempo))][1] = rng.choice(BPM_WIDE)
     total = measures[-1] + (rng.choice([1, 30, 200]) if far else rng.choice([1, 2, 3]))
     total = min(total, 999)
+    if last_measure:
+        total = 1000  # measures 000..999: objects up to the end of measure 999
     tl = MemTimeline(tempo)
 
     # ---- the way write() is called: placeholder id for unknown samples, LN end id, entry point
@@ -127,6 +168,8 @@ def gen_case(rng, layout_name, *, n_tempo=None, long_bpm=False, density=None, no
     # half of the charts crowd their objects into a window of 1..2 measures (several objects per written line)
     w0 = rng.randrange(0, total) if rng.random() < 0.5 else 0
     w1 = min(total, w0 + rng.choice([1, 2])) if rng.random() < 0.5 or w0 else total
+    if last_measure:
+        w0, w1 = rng.choice([998, 999]), 1000
     p_hold = {"no_holds": 0.0, "one_hit": 0.0, "no_hits": 1.0, "one_hold": 1.0}.get(notes, 0.4)
     prev = []
     dens = (1, 2, 4) if int_ms else GRID_DENS
@@ -165,6 +208,10 @@ def gen_case(rng, layout_name, *, n_tempo=None, long_bpm=False, density=None, no
         if notes in ("one_hit", "one_hold"):
             kept = kept[: (1 if notes == "one_hit" else 2)] if not objs else []
         prev = list(kept)
+        if wide_bpm:
+            # very slow next to very fast tempo: a float time can be visibly beside the grid point it was computed from; "on the grid" (exact
+            # position demanded) only where the in-memory time is within 1e-9 beat of it, as in every other chart of this generator
+            kept = [(p, g and abs(tl.beat_of_ms(Fraction(float(tl.ms_of_beat(p)))) - p) <= Fraction(1, 10**9)) for p, g in kept]
         i = 0
         while i < len(kept):
             p, g = kept[i]
@@ -197,17 +244,20 @@ def gen_case(rng, layout_name, *, n_tempo=None, long_bpm=False, density=None, no
         num = "int"
     elif rng.random() < 0.25:
         num = "numpy"
-    history = history or rng.choice(HISTORIES)
+    history = history or (rng.choice(EDIT_HISTORIES) if rng.random() < 0.2 else rng.choice(HISTORIES))
     call = call or rng.choice(CALLS)
     if call == "default_layout" and layout_name != "BME":
         call = "kw"
     case = dict(layout=layout_name, tempo=tempo, lnobj=lnobj, samples=samples, objs=objs, meta=meta, tempo_row_order=order, labels=labels,
-                via_file=(rng.random() < 0.2) if via_file is None else via_file, path_kind=rng.choice(["str", "Path"]), misc=misc, num=num,
+                via_file=(rng.random() < 0.3) if via_file is None else via_file, path_kind=rng.choice(["str", "Path"]), misc=misc, num=num,
                 no_sample_default=placeholder or None, call=call, history=history, empty_via=empty_via or rng.choice(["ctor", "filter"]),
                 lnobj_set=not (lnobj == "ZZ" and rng.random() < 0.3))
-    if history == "after_other":
-        # another chart that is built and written first, and stays alive, in the same process
-        case["other"] = gen_case(rng, rng.choice(LAYOUT_NAMES), n_tempo=rng.choice([1, 2, 3]), density=2, history="fresh", via_file=False)
+    if case["via_file"]:
+        case["file_before"] = file_before or rng.choice(FILE_BEFORE)
+    if history in ("after_other", "edit_replaced") or case.get("file_before") == "other_chart":
+        # another chart that is built and written first (after_other: and stays alive) in the same process; edit_replaced: the chart object
+        # itself held that chart first; other_chart: that chart was exported to the same path before
+        case["other"] = gen_case(rng, rng.choice(LAYOUT_NAMES), n_tempo=rng.choice([1, 2, 3]), density=rng.choice([2, 2, 8]), history="fresh", via_file=False)
     return case
 
 
@@ -229,7 +279,16 @@ def _filtered_empty(cls, item):
     return cls([item]).after(1e15)
 
 
-def build_map(case):
+def _rotation(layout_name):
+    """a bijection of the layout's columns onto themselves without a fixed point (the chart BEFORE a column edit sits in these lanes)"""
+    lanes = columns_of(layout_name)
+    return {c: lanes[(i + 1) % len(lanes)] for i, c in enumerate(lanes)}
+
+
+def build_map(case, variant=None, held=None):
+    """the chart of the case, or - variant - another legal chart from which public edits lead to it:
+    'scaled': every time doubled, every tempo halved (exact in floats); 'columns': every object in the lane _rotation() gives;
+    'held_back': without its last hit, its last hold and (when no object lies at or after it) its last tempo point, which are put into `held`"""
     import numpy as np
     from reamber.bms import BMSMap, BMSHit, BMSHold
     from reamber.bms.BMSBpm import BMSBpm
@@ -238,26 +297,39 @@ def build_map(case):
 
     tl = MemTimeline(case["tempo"])
     num = case.get("num", "float")
-    fl = (lambda x: np.float64(x)) if num == "numpy" else float
-    it = (lambda x: np.int64(x)) if num == "numpy" else int
+    k = 2 if variant == "scaled" else 1
+    rot = _rotation(case["layout"]) if variant == "columns" else None
+    raw = np.float64 if num == "numpy" else float
+    fl = lambda x: raw(x * k)  # noqa: E731
+    it = (lambda x: np.int64(x if rot is None else rot[x])) if num == "numpy" else (lambda x: int(x if rot is None else rot[x]))
     m = BMSMap()
-    bpm_rows = [BMSBpm(offset=fl(o), bpm=fl(b), metronome=4) for o, b in zip(tl.off_f, tl.bpm_f)]
+    bpm_rows = [BMSBpm(offset=fl(o), bpm=raw(b / k), metronome=4) for o, b in zip(tl.off_f, tl.bpm_f)]
+    t_end = max([o["t"] + o.get("len", 0.0) for o in case["objs"]], default=-1.0)
+    if variant == "held_back" and len(bpm_rows) > 1 and t_end < tl.off_f[-1]:
+        held["bpm"] = bpm_rows[-1]
     # a chart is a set of timed objects: the tempo rows may be stored in any order (append without sort)
     perm = case.get("tempo_row_order")
     if perm is not None and len(perm) == len(bpm_rows):
         bpm_rows = [bpm_rows[i] for i in perm]
+    if variant == "held_back" and "bpm" in held:
+        bpm_rows = [r for r in bpm_rows if r is not held["bpm"]]
     labels = case.get("labels")
     if not isinstance(labels, dict):
         labels = dict(bpms=labels)  # (older cases: one mode, for the tempo list)
     m.bpms = _relabel(BMSBpmList(bpm_rows), labels.get("bpms"))
     hits = [BMSHit(offset=fl(o["t"]), column=it(o["col"]), sample=o["sample"].encode("shift_jis")) for o in case["objs"] if o["kind"] == "hit"]
     holds = [BMSHold(offset=fl(o["t"]), column=it(o["col"]), length=fl(o["len"]), sample=o["sample"].encode("shift_jis")) for o in case["objs"] if o["kind"] == "hold"]
+    if variant == "held_back":
+        if hits:
+            held["hit"] = hits.pop()
+        if holds:
+            held["hold"] = holds.pop()
     filt = case.get("empty_via") == "filter"
     m.hits = _relabel(BMSHitList(hits), labels.get("hits")) if hits or not filt else _filtered_empty(BMSHitList, BMSHit(offset=0.0, column=0, sample=b""))
     m.holds = _relabel(BMSHoldList(holds), labels.get("holds")) if holds or not filt else _filtered_empty(BMSHoldList, BMSHold(offset=0.0, column=0, length=1.0, sample=b""))
     if num == "int":
         # whole-millisecond charts held in int-typed columns
-        m.bpms = BMSBpmList(m.bpms.df.astype(dict(offset="int64", **({"bpm": "int64"} if all(b.is_integer() for b in tl.bpm_f) else {}))))
+        m.bpms = BMSBpmList(m.bpms.df.astype(dict(offset="int64", **({"bpm": "int64"} if all((b / k).is_integer() for b in tl.bpm_f) else {}))))
         if hits:
             m.hits = BMSHitList(m.hits.df.astype(dict(offset="int64")))
         if holds:
@@ -295,21 +367,112 @@ def _call_write(m, case, path=None):
     return (m.write if path is None else m.write_file)(*args, **kw)
 
 
+class EditStepError(Exception):
+    """a public list / stack / rate operation of an edit history raised: not an observation of the writer"""
+
+
+def _edit(step, fn):
+    try:
+        return fn()
+    except Exception as e:  # noqa
+        raise EditStepError(f"{step}: {type(e).__name__}: {e}") from e
+
+
+def prepare(case, keep=None, first_path=None):
+    """-> (the chart object after its history - everything up to, not including, the write that is checked -, in-memory timeline).
+    Earlier writes of the history go through write() or, when `first_path` is given, through write_file(first_path) (the path then already
+    holds an earlier export when the checked write_file comes)."""
+    other_ph = b"0X" if case["lnobj"].upper() != "0X" else b"0W"
+
+    def first(mm, c, **kw):
+        first.done = True
+        if kw:
+            return mm.write(**kw) if first_path is None else mm.write_file(first_path, **kw)
+        return _call_write(mm, c, path=first_path)
+
+    first.done = False
+    history = case.get("history", "fresh")
+    if history == "after_other" and case.get("other"):
+        mo, _ = build_map(case["other"])
+        _call_write(mo, case["other"])
+        if keep is not None:
+            keep.append(mo)  # two charts alive at once
+    kind = history[5:] if history.startswith("edit_") else None
+    if kind and kind.startswith("scaled") and case.get("num") == "int":
+        kind = "columns_props"  # (halved tempo values would not stay whole numbers)
+    if kind == "replaced" and not case.get("other"):
+        kind = None
+    if kind is None:
+        m, tl = build_map(case)
+        if history == "second_write":
+            # the same chart written before, with another placeholder id: results of two calls do not influence each other
+            first(m, case, note_channel_config=layout_of(case["layout"]), no_sample_default=other_ph)
+    elif kind == "replaced":
+        # the object held (and wrote) another chart; every list and field is then assigned anew
+        m, _ = build_map(case["other"])
+        first(m, case["other"])
+        src, tl = build_map(case)
+        m.hits, m.holds, m.bpms = src.hits, src.holds, src.bpms
+        m.samples, m.ln_end_channel, m.title, m.artist, m.version, m.misc = src.samples, src.ln_end_channel, src.title, src.artist, src.version, src.misc
+    elif kind.startswith("scaled"):
+        m, tl = build_map(case, variant="scaled")
+        first(m, case)
+        if kind == "scaled_rate":
+            m = _edit("rate(2)", lambda: m.rate(2.0))  # (a new chart object derived from the one written before)
+        elif kind == "scaled_stack":
+            def go():
+                s = m.stack()
+                s.offset /= 2
+                s.bpm *= 2
+                if len(m.holds):
+                    s.length /= 2
+            _edit("stack().offset /= 2; .bpm *= 2; .length /= 2", go)
+        else:
+            def go():
+                m.hits.offset = m.hits.offset / 2
+                m.holds.offset = m.holds.offset / 2
+                m.holds.length = m.holds.length / 2
+                m.bpms.offset = m.bpms.offset / 2
+                m.bpms.bpm = m.bpms.bpm * 2
+            _edit("<list>.offset = <list>.offset / 2 ...", go)
+    elif kind.startswith("columns"):
+        m, tl = build_map(case, variant="columns")
+        first(m, case)
+        inv = {v: k for k, v in _rotation(case["layout"]).items()}
+        if kind == "columns_stack" and (len(m.hits) or len(m.holds)):
+            def go():
+                s = m.stack()
+                s.column = s.column.map(inv)
+            _edit("stack().column = stack().column.map(...)", go)
+        else:
+            def go():
+                m.hits.column = m.hits.column.map(inv)
+                m.holds.column = m.holds.column.map(inv)
+            _edit("<list>.column = <list>.column.map(...)", go)
+    else:  # appended
+        held = {}
+        m, tl = build_map(case, variant="held_back", held=held)
+        first(m, case)
+
+        def go():
+            if "hit" in held:
+                m.hits = m.hits.append(held["hit"])
+            if "hold" in held:
+                m.holds = m.holds.append(held["hold"])
+            if "bpm" in held:
+                m.bpms = m.bpms.append(held["bpm"])
+        _edit("<list> = <list>.append(item)", go)
+    if first_path is not None and not first.done:
+        m.write_file(first_path, note_channel_config=layout_of(case["layout"]), no_sample_default=other_ph)
+    return m, tl
+
+
 def write_real(case, keep=None):
     import warnings
 
     with warnings.catch_warnings():
         warnings.simplefilter("ignore")
-        history = case.get("history", "fresh")
-        if history == "after_other" and case.get("other"):
-            mo, _ = build_map(case["other"])
-            _call_write(mo, case["other"])
-            if keep is not None:
-                keep.append(mo)  # two charts alive at once
-        m, tl = build_map(case)
-        if history == "second_write":
-            # the same chart written before, with another placeholder id: results of two calls do not influence each other
-            m.write(note_channel_config=layout_of(case["layout"]), no_sample_default=b"0X" if case["lnobj"].upper() != "0X" else b"0W")
+        m, tl = prepare(case, keep=keep)
         return _call_write(m, case), tl
 
 
@@ -343,36 +506,18 @@ def run_case(case):
     """-> (failures [(clause, detail)], observations dict)"""
     obs = {}
     fails = []
-    lay = layout_of(case["layout"])
+    lay = interp_layout(case["layout"])  # the documented table, not the one the writer uses
     alive = []
     try:
         data, tl = write_real(case, keep=alive)
+    except EditStepError as e:
+        return [], dict(edit_step_raised=str(e)[:200])
     except Exception as e:  # noqa
         return [("write_raises", f"{type(e).__name__}: {e}")], obs
     if not isinstance(data, (bytes, bytearray)):
         return [("write_raises", f"write returned {type(data).__name__}, not bytes")], obs
     if case.get("via_file"):
-        # write_file(path, layout[, placeholder]) must put exactly write(layout[, placeholder]) into the file
-        import os
-        import pathlib
-        import tempfile
-        import warnings
-
-        m2, _ = build_map(case)
-        fd, path = tempfile.mkstemp(suffix=".bms")
-        os.close(fd)
-        try:
-            with warnings.catch_warnings():
-                warnings.simplefilter("ignore")
-                _call_write(m2, case, path=pathlib.Path(path) if case.get("path_kind") == "Path" else path)
-            with open(path, "rb") as f:
-                got = f.read()
-            if got != bytes(data):
-                fails.append(("write_file_equals_write", f"write_file(path, {case['layout']}) wrote {len(got)} bytes that differ from write({case['layout']})"))
-        except Exception as e:  # noqa
-            fails.append(("write_file_equals_write", f"write_file raised {type(e).__name__}: {e}"))
-        finally:
-            os.unlink(path)
+        fails += _write_file_fails(case, bytes(data))
 
     # ---- every line syntactically valid
     for ln in data.replace(b"\r\n", b"\n").split(b"\n"):
@@ -462,8 +607,56 @@ def run_case(case):
     return fails, obs
 
 
+def _write_file_fails(case, data):
+    """write_file(path, layout[, placeholder]) must leave exactly write(layout[, placeholder]) - which is checked to denote the chart - in the
+    file, whatever the path held before (`file_before`: a new path, an empty file, a longer / shorter old text, the export of another chart,
+    an earlier export of this very chart object: the earlier write of its history, or one with another placeholder id)"""
+    import os
+    import pathlib
+    import shutil
+    import tempfile
+    import warnings
+
+    before = case.get("file_before", "empty")
+    d = tempfile.mkdtemp(prefix="c05_")
+    path = os.path.join(d, "out chart.bms")
+    clause = "write_file_equals_write" if before in ("empty", "absent") else "write_file_replaces_existing_file"
+    try:
+        with warnings.catch_warnings():
+            warnings.simplefilter("ignore")
+            first_path = None
+            if before == "empty":
+                open(path, "wb").close()
+            elif before == "longer_text":
+                with open(path, "wb") as f:
+                    f.write(b"#TITLE old export\r\n#BPM 99\r\n#LNOBJ ZZ\r\n#BPM01 99.000\r\n\r\n" + b"".join(b"#%03d11:0A0B0C0DZZ00\r\n" % (i % 1000) for i in range(len(data) // 20 + 40)))
+            elif before == "shorter_text":
+                with open(path, "wb") as f:
+                    f.write(b"#TITLE x")
+            elif before == "other_chart" and case.get("other"):
+                mo, _ = build_map(case["other"])
+                _call_write(mo, case["other"], path=path)
+            elif before == "same_path_twice":
+                first_path = path
+            m2, _ = prepare(case, first_path=first_path)
+            n_before = os.path.getsize(path) if os.path.exists(path) else None
+            _call_write(m2, case, path=pathlib.Path(path) if case.get("path_kind") == "Path" else path)
+        with open(path, "rb") as f:
+            got = f.read()
+        if got != data:
+            how = ("the new text stands BEHIND older content" if got.endswith(data) else "the new text is followed by older content" if got.startswith(data) else "the content differs")
+            return [(clause, f"write_file(path, {case['layout']}) onto a path that held {before if n_before is not None else 'nothing'} ({n_before} bytes) left {len(got)} bytes in the file; write({case['layout']}) gives {len(data)} bytes: {how}")]
+    except EditStepError:
+        return []
+    except Exception as e:  # noqa
+        return [(clause, f"write_file raised {type(e).__name__}: {e}")]
+    finally:
+        shutil.rmtree(d, ignore_errors=True)
+    return []
+
+
 CLAUSES = (
-    "write_raises line_syntax file_well_formed tempo_timeline object_merged_or_dropped lane hit_position_on_grid hit_time_on_grid hit_time_off_grid "
+    "write_file_equals_write write_file_replaces_existing_file write_raises line_syntax file_well_formed tempo_timeline object_merged_or_dropped lane hit_position_on_grid hit_time_on_grid hit_time_off_grid "
     "hold_head_position_on_grid hold_head_time_on_grid hold_head_time_off_grid hold_tail_position_on_grid hold_tail_time_on_grid hold_tail_time_off_grid known_sample_id"
 ).split()
 
@@ -471,7 +664,7 @@ CLAUSES = (
 def _grid_cases():
     """every layout x every column it offers x (hit | hold) x (on grid | off grid), after one tempo change."""
     for name in LAYOUT_NAMES:
-        for col in sorted(note_lanes(layout_of(name)).values()):
+        for col in columns_of(name):
             tempo = [[0, "150"], [1, "177.5"]]
             tl = MemTimeline(tempo)
             for kind in ("hit", "hold"):
@@ -506,7 +699,7 @@ def _edge_cases(rng):
     """a fixed family (whatever the seed): every layout x charts lacking one kind of object / any object, with 1..4 tempo points,
     empty lists made by the constructor and by a filter; own placeholder id with 01 as LN end id, through write() and write_file();
     every way of calling; every history; int-typed and numpy-typed columns; far measures"""
-    for name in LAYOUT_NAMES:
+    for li, name in enumerate(LAYOUT_NAMES):
         for notes in NOTE_SHAPES[1:]:
             for n_tempo, via in ((1, "ctor"), (2, "filter"), (4, "ctor")):
                 yield gen_case(rng, name, notes=notes, n_tempo=n_tempo, empty_via=via, far=False)
@@ -519,6 +712,15 @@ def _edge_cases(rng):
         yield gen_case(rng, name, int_ms=True, far=False)
         yield gen_case(rng, name, far=True, n_tempo=rng.choice([2, 3, 5]))
         yield gen_case(rng, name, notes="none", far=True, n_tempo=3)
+        # call - legitimate change - call again; what the target of write_file held before; ends of the value ranges
+        # (4 of the 7 edit histories and 4 of the 6 path states per layout, rotating: each is met under 2..3 layouts here)
+        for j in range(4):
+            yield gen_case(rng, name, history=EDIT_HISTORIES[(4 * li + j) % len(EDIT_HISTORIES)], int_ms=False, via_file=rng.random() < 0.3)
+            yield gen_case(rng, name, via_file=True, file_before=FILE_BEFORE[(4 * li + j) % len(FILE_BEFORE)], density=rng.choice([2, 8]))
+        yield gen_case(rng, name, via_file=True, file_before="same_path_twice", history=rng.choice(EDIT_HISTORIES))
+        yield gen_case(rng, name, wide_bpm=True, n_tempo=rng.choice([2, 3, 4]), far=False)
+        yield gen_case(rng, name, last_measure=True, n_tempo=rng.choice([1, 2, 3]), density=4)
+        yield gen_case(rng, name, placeholder="ZZ", lnobj=rng.choice(["01", "ZY"]), density=4)
 
 
 def _dims(case):
@@ -542,6 +744,12 @@ def _dims(case):
             d.append("own_placeholder_and_hold_with_unknown_sample")
     d.append("call:" + case.get("call", "kw"))
     d.append("history:" + case.get("history", "fresh"))
+    if case.get("via_file"):
+        d.append("file_before:" + case.get("file_before", "empty"))
+    if any(b in BPM_WIDE for _, b in case["tempo"]):
+        d.append("bpm_from_the_ends_of_the_range")
+    if case["tempo"][-1][0] == 999 or any(o["t"] + o.get("len", 0.0) >= MemTimeline(case["tempo"]).ms_of_beat(Fraction(4 * 999)) for o in case["objs"]):
+        d.append("measure_999")
     d.append("num:" + case.get("num", "float"))
     if case.get("via_file"):
         d.append("write_file:" + case.get("path_kind", "str"))
@@ -573,16 +781,23 @@ def bms_write_vs_interpreter(rep):
     rep.bound = (
         f"grid: {len(grid)} single-object charts (5 layouts x every column x hit|hold x on|off grid after a tempo change); edge: {len(edge)} charts (5 layouts x [no hits | no holds | no notes at all | one hit | one hold] x 1, 2, 4 tempo points "
         f"with empty lists from the constructor / left by a filter; own placeholder id + LN end id 01 through write() and write_file(); positional / class / default-layout calls; second write of one chart, another chart written before; "
-        f"int-typed whole-ms columns; measures up to 999); random: {N} charts over 5 layouts, 1..6 tempo points on measure lines "
+        f"int-typed whole-ms columns; measures up to 999; every edit history; write_file onto every kind of earlier path content; tempo values {BPM_WIDE}; tempo point and objects in measure 999; placeholder id ZZ); random: {N} charts over 5 layouts, 1..6 tempo points on measure lines "
         f"(bpm pool of {len(BPM_POOL)} values with <= 3 decimals), 1..6 columns of the layout, 1..16 objects per column (half of the charts: all inside a 1..2 measure window) on the grid (denominators {GRID_DENS}) and off it (1e-6 beat raster, "
         f"1e-7 beat beside a grid point, half way between two 1/192 positions), >= 1/24 beat apart within a lane, objects at time 0 / on tempo points / on measure lines / at the same time in several lanes, 40% long notes, "
         f"samples known / unknown / empty (non-ASCII and ':' '#' in file names, 1/10 lower-case ids), str and bytes metadata (Shift-JIS multi-byte incl. wave dash, full-width space, 0x5C trail bytes; tab, ':' '#' '//' inside), extra header entries; "
         f"mixtures: 22% charts lacking a kind of object (no hits / no holds / no notes / exactly one), row labels of EACH of the tempo, hit and hold lists default / gappy reversed / offset / reversed / permuted / permuted by sorted() (3/8 default), "
-        f"tempo rows out of time order (35%), 30% own no_sample_default id (then LN end id 01 in 40%), calls keyword / positional / via the class / layout defaulted, 20% write_file (str and pathlib paths), "
-        f"40% with a history (the same chart written before with another placeholder; another chart built and written before and still alive), 10% int-typed whole-ms columns, 25% numpy scalars, 8% tempo points 40..150 measures apart; "
+        f"tempo rows out of time order (35%), 30% own no_sample_default id (then LN end id 01 in 40%), calls keyword / positional / via the class / layout defaulted, 30% write_file (str and pathlib paths) onto a path that is {' / '.join(FILE_BEFORE)} "
+        f"(longer / shorter old text, the export of another chart, an earlier export of the same chart object), "
+        f"32% with a history (the same chart written before with another placeholder; another chart built and written before and still alive), "
+        f"20% call - change - call again: the chart object first holds another legal chart and is written, is then changed into the chart of the case by public operations only "
+        f"(all times doubled and tempos halved, undone by the list property setters / the stack / rate(2); every object in another lane, undone by the column setters / the stack; "
+        f"without its last hit, hold and tempo point, then <list> = <list>.append(item); a different chart, then every list and field assigned anew) and written again, "
+        f"8% tempo values from the ends of the range ({BPM_WIDE[0]} .. {BPM_WIDE[6]}; on-grid demanded only where the float time is within 1e-9 beat of the grid point), 10% int-typed whole-ms columns, 25% numpy scalars, 8% tempo points 40..150 measures apart; "
         f"1 chart with {big} tempo points (one per measure line); 1/10 of the charts with > 3-decimal bpms (tempo tolerance 0.0005 there)"
     )
-    rep.rule = "a case is one chart + layout + the way write is called; non-trivial when it has >= 2 objects or >= 2 tempo points"
+    rep.rule = ("a case is one chart + layout + the way write is called + what happened to the chart object / the target path before; the written bytes are interpreted with the DOCUMENTED channel table of the layout "
+                "(Writerside/topics/reamber/bms/Channel.md), not with the writer's own; non-trivial when it has >= 2 objects or >= 2 tempo points; "
+                "a case whose edit step itself raises is counted (edit_step_raised) and not judged")
     seen = {}
     dims = {}
     observed = dict(bpm_rounded_to_3_decimals_cases=0, bpm_rounded_to_3_decimals_max_dev=0.0, unknown_sample_objects=0, unknown_sample_objects_not_written_with_the_placeholder=0)
@@ -592,6 +807,8 @@ def bms_write_vs_interpreter(rep):
         for d in _dims(case):
             dims[d] = dims.get(d, 0) + 1
         fails, obs = run_case(case)
+        if "edit_step_raised" in obs:
+            observed.setdefault("edit_step_raised", []).append(obs["edit_step_raised"])
         for what, d in fails:
             seen[what] = seen.get(what, 0) + 1
             rep.fail(what, case, d)
